@@ -560,14 +560,14 @@ struct Runner
 			s.op(fmt("create %s %ld", a.id.c_str(), kk));
 			s.res(RowLog::events() + (RowLog::events().empty() ? "" : " ") + (threw ? "throw" : "ok"));
 			c.stats.count(threw ? "row:create-throw" : "row:create-ok");
-			if (threw != (kk >= 0)) c.fail("C18 once: CreateRaw fault k=%ld threw=%d; list %s", kk, (int)threw, a.id.c_str());
+			if (threw != (kk >= 0)) c.fail("C18 once: CreateRaw with construction #%ld throwing: exception propagated=%d; %s", kk, (int)threw, describe(a).c_str());
 			ledgerCheck(fmt("CreateRaw with construction #%ld throwing", kk), a, !threw);
 			c.stats.evaluations++;
 			if (threw) continue;
 			// every item default-constructed
 			for (size_t i = 0; i < n; ++i) {
 				const ColDesc& d = (*U)[a.added[i]];
-				if (fns.getFns[d.type](raw.p, a.offs[i]) != fns.defFns[d.type]()) c.fail("C18 create: column %zu (code %llu) not default-constructed; list %s", i, (unsigned long long)d.code, a.id.c_str());
+				if (fns.getFns[d.type](raw.p, a.offs[i]) != fns.defFns[d.type]()) c.fail("C18 create: column %zu (code %llu) not default-constructed by CreateRaw; %s", i, (unsigned long long)d.code, describe(a).c_str());
 				fns.putFns[d.type](raw.p, a.offs[i], rng.next());
 			}
 			// (2) ImportRaw into the same list and into another list (different columns / order / offsets)
@@ -595,9 +595,11 @@ struct Runner
 					if (it != a.added.end()) {
 						++shared;
 						uint64_t want = fns.getFns[d.type](raw.p, a.offs[(size_t)(it - a.added.begin())]);
-						if (got != want) c.fail("C18 import: column code %llu copied wrongly from list %s to list %s", (unsigned long long)d.code, a.id.c_str(), dstT->id.c_str());
+						if (got != want) c.fail("C18 import: column code %llu copied wrongly by ImportRaw (events %s); source: %s; destination: %s", (unsigned long long)d.code,
+							RowLog::events().c_str(), describe(a).c_str(), describe(*dstT).c_str());
 					} else if (got != fns.defFns[d.type]())
-						c.fail("C18 import: column code %llu absent from source list %s is not default-constructed in list %s", (unsigned long long)d.code, a.id.c_str(), dstT->id.c_str());
+						c.fail("C18 import: column code %llu, absent from the source list, is not default-constructed by ImportRaw (events %s); source: %s; destination: %s",
+							(unsigned long long)d.code, RowLog::events().c_str(), describe(a).c_str(), describe(*dstT).c_str());
 				}
 				if (which == 1) c.stats.count(shared == 0 ? "row:import-other-disjoint" : shared == dn ? "row:import-other-all-shared" : "row:import-other-partly-shared");
 				RowLog::reset(raw2.p, nullptr);
